@@ -134,6 +134,10 @@ func c03Docs(c *Case) []*xdoc.Doc {
 	})
 }
 
+func c03DeepDocs(c *Case) []*xdoc.Doc {
+	return c.docPool("deep", 3, func(g *xgen.G) *xdoc.Doc { return g.DeepTree() })
+}
+
 // withoutPositional returns e with numeric/positional first predicates removed (to size the candidate set).
 func withoutPositional(e xref.Expr) xref.Expr {
 	switch x := e.(type) {
@@ -163,7 +167,7 @@ func c03GridRun(c *Case) {
 	}
 	c.recordShape(queryShape(ce))
 	_, isFilter := e.(xref.Filter)
-	for di, d := range c03Docs(c) {
+	for di, d := range append(append([]*xdoc.Doc(nil), c03Docs(c)...), c03DeepDocs(c)...) {
 		for k, ctx := range d.Nodes {
 			// every node of the first documents, a deterministic third of the others
 			if di >= 3 && (k+c.Index)%3 != 0 {
@@ -200,7 +204,9 @@ func c03Random(c *Case) {
 	g := c.G()
 	dg := c.GShared("doc", int64(c.Index/6))
 	var d *xdoc.Doc
-	if dg.Chance(0.6) {
+	if (c.Index/6)%8 == 5 {
+		d = dg.DeepTree()
+	} else if dg.Chance(0.6) {
 		d = dg.WideTree(4, 8)
 	} else {
 		d = dg.Tree(xgen.DefaultTree())
